@@ -51,3 +51,22 @@ Theorem c07_ends_only_on : forall now s,
   cs_open s = false \/ expired (cs_perms s) now = true.
 Proof. exact cleanup_csub_unregisters. Qed.
 Print Assumptions c07_ends_only_on.
+
+(* ---------- through the handlers (Model/Api.v) ---------- *)
+From KD Require Model.Api Proofs.Api.
+
+(* kuksa.val.v2 Subscribe / SubscribeById: the subscription is the core subscription of exactly the signals the
+   request names (duplicates collapsed), Datapoint field, with the request's buffer size *)
+Theorem c07_v2_subscribe_is_core : forall st p l buf st' h,
+  Api.v2_subscribe st p l buf = (st', inl h) ->
+  exists ids, Api.v2_resolve_all (st_db st) l = inl ids /\
+              subscribe st p (map (fun id => (id, Api.dp_only)) (Api.nodup_z ids)) (Some buf) = (st', inl h).
+Proof. exact Proofs.Api.v2_subscribe_entries. Qed.
+Print Assumptions c07_v2_subscribe_is_core.
+
+(* a refused handler subscription registers nothing *)
+Theorem c07_refused_handler_subscription_no_effect : forall st p,
+  (forall path fl st' c, Api.v1_subscribe st p path fl = (st', inr c) -> st' = st) /\
+  (forall l buf st' c, Api.v2_subscribe st p l buf = (st', inr c) -> st' = st).
+Proof. exact Proofs.Api.handler_subscribe_refused_no_effect. Qed.
+Print Assumptions c07_refused_handler_subscription_no_effect.
